@@ -86,10 +86,12 @@ func wideWitnessList(u *xuniverse) []wideWitness {
 			wReg("n1", "", "", wSvc("api", "api", 8000)),
 			wConfig(&structs.TerminatingGatewayConfigEntry{Kind: structs.TerminatingGateway, Name: "term-gw", Services: []structs.LinkedService{{Name: "db"}}})}},
 		{"catalog:connect-service-nodes:index-of-target-name-not-of-proxy-instances", []entry{
-			wReg("n2", idA, "", wProxy("api-sidecar-proxy", "api")), wReg("n2", idC, "", nil)}},
+			wReg("n1", "", "", wSvc("api", "api", 8000)), // the target service has its own index row …
+			wReg("n2", idA, "", wProxy("api-sidecar-proxy", "api")), wReg("n2", idC, "", nil)}}, // … which a sidecar's node update does not touch
 		{"catalog:connect-health:proxy-service-name-extinct:index-over-remaining-names-only", []entry{
 			wReg("n2", "", "", native("Web", "Web")), wReg("N1", "", "", wProxy("web-sidecar-proxy", "web")), wDereg("N1")}},
 		{"catalog:connect-queries:instance-stops-being-connect:extinction-index-read-while-service-exists", []entry{
+			wReg("n3", "", "", wSvc("db", "db", 8001)), wDereg("n3"), // some service went extinct earlier
 			wReg("n1", "", "", native("web", "web")), wReg("n1", "", "", wSvc("web", "web", 8000))}},
 		{"peering:exported-services-for-peer:index-0-when-peering-absent", []entry{
 			{data: encProto(structs.PeeringWriteType, &pbpeering.PeeringWriteRequest{Peering: &pbpeering.Peering{ID: u.peerIDs[2], Name: u.peerNames[2], State: pbpeering.PeeringState_ACTIVE}}),
